@@ -283,7 +283,7 @@ def check_container(fam, kind, impl, ls, rng, rec, quick):
                 if is_tree and method in ('keys', 'values', 'items') and \
                         rng.random() < (0.25 if quick else 0.5):
                     bad = check_lazy(c, method, args, kw, mo[1], rng, rec,
-                                     impl, nleaves)
+                                     impl, nleaves, sweep)
                     if bad:
                         nviol += 1
                         if nviol <= 6:
@@ -347,9 +347,27 @@ def build_args(mn, mx, emin, emax, rng):
     return args, kw
 
 
-def check_lazy(c, method, args, kw, expected, rng, rec, impl, nleaves):
+def check_lazy(c, method, args, kw, expected, rng, rec, impl, nleaves,
+               sweep=None):
     seq = getattr(c, method)(*args, **kw)
     n = len(expected)
+    if sweep is not None:
+        sweep()         # len() / indexing must load what they count
+    if rng.random() < .3:
+        # far beyond the end first: a refused index must not teach the
+        # sequence a wrong length
+        for far in (n + 1 + rng.randint(0, 3), -(n + 2 + rng.randint(0, 3))):
+            try:
+                seq[far]
+                return dict(what='seq[%d] did not raise' % far, observed='ok',
+                            expected='IndexError')
+            except IndexError:
+                pass
+            except Exception as e:
+                return dict(what='seq[%d] raised %s' % (
+                    far, type(e).__name__), observed=None,
+                    expected='IndexError')
+        rec.ev(impl + ':far_index_then_len')
     try:
         ln = len(seq)
     except Exception as e:
@@ -364,6 +382,8 @@ def check_lazy(c, method, args, kw, expected, rng, rec, impl, nleaves):
     rng.shuffle(idx)   # random access order exercises the cursor re-seek
     for i in idx[:12]:
         rec.evaluations += 1
+        if sweep is not None and rng.random() < .3:
+            sweep()
         try:
             got = ('ok', seq[i])
         except IndexError:
